@@ -430,7 +430,9 @@ func genLifecycle(r *Rng, idx int, tier string, step func(op string) string) {
 	if !stopAfter && r.Chance(35) {
 		ntrk = r.Range(1, 2) // in-process HTTP trackers that can be told not to answer the `stopped` event
 	}
-	o := step(fmt.Sprintf("new pl=%d files=%s seq=0 cfg.AllowedFastSet=0 stopafter=%s trackers=%d", l.pl, l.filesArg(), b01(stopAfter), ntrk))
+	// sometimes the data is already on disk: the first start verifies it and the torrent is complete at once
+	seeded := r.Chance(25)
+	o := step(fmt.Sprintf("new pl=%d files=%s seq=0 cfg.AllowedFastSet=0 stopafter=%s trackers=%d seeded=%s", l.pl, l.filesArg(), b01(stopAfter), ntrk, b01(seeded)))
 	if !strings.HasPrefix(o, "ok") {
 		return
 	}
@@ -515,6 +517,26 @@ func genLifecycle(r *Rng, idx int, tier string, step func(op string) string) {
 				do("start")
 			} else {
 				do("obs")
+			}
+		case roll < 68 && obsKV(last)["completed"] == "1":
+			// a complete torrent is damaged while stopped, re-verified on request and started again
+			if st != "Stopped" {
+				do("stop")
+				if ntrk > 0 {
+					do("waitstop")
+				}
+			}
+			if status(last) == "Stopped" {
+				file := "all"
+				if r.Chance(60) {
+					file = fmt.Sprint(r.Intn(len(l.lens)))
+				}
+				do(fmt.Sprintf("mutate file=%s how=%s off=%d", file, r.Pick2("corrupt", "corrupt", "delete", "fill"), r.Pick(0, 1, l.pl-1, l.pl)))
+				do("verify")
+				if ntrk > 0 {
+					do("waitstop")
+				}
+				do("start")
 			}
 		case roll < 72:
 			if st == "Stopped" {
